@@ -211,6 +211,50 @@ def check_enum(case):
     return {"nontrivial": len(base) >= 2 and full.shape[0] >= 1, "labels": ["style=" + case["style"]]}
 
 
+# ---------------------------------------------------------------- exhaustive small sub-space, short integration
+
+_ENUM_SI_BANKS = {
+    "gabor": {"alias": "gabor", "num_filts": 2, "low_hz": 50.0, "high_hz": 450.0, "sampling_rate": 1000,
+              "scale": {"alias": "linear", "low_hz": 0.0, "slope_hz": 1.0}, "erb": False, "scale_l2_norm": False},
+    "gammatone": {"alias": "gammatone", "num_filts": 2, "low_hz": 50.0, "high_hz": 450.0, "sampling_rate": 1000,
+                  "scale": {"alias": "linear", "low_hz": 0.0, "slope_hz": 1.0}, "erb": False, "scale_l2_norm": False,
+                  "order": 4, "max_centered": False},
+}
+
+
+def _enum_si_cases(tier):
+    Nmax = 10 if tier == "thorough" else 6
+    # N also around the overlap-save block (DFT size 14..19, block = D - M + 1 = 1..6): lengths up to 10 cross it
+    for bank in ("gabor", "gammatone"):
+        for S in (1, 2, 3):
+            for style in ("causal", "centered"):
+                for pad in ((False, True) if tier == "thorough" else (False,)):
+                    for N in range(0, Nmax + 1):
+                        for mask in range(1 << max(N - 1, 0)):
+                            yield {"bank": bank, "S": S, "style": style, "pad": pad, "N": N, "mask": mask}
+
+
+def check_enum_si(case):
+    S, N = case["S"], case["N"]
+    spec = {"kind": "si", "bank": _ENUM_SI_BANKS[case["bank"]], "S": S, "S_top": False, "frame_style": case["style"],
+            "include_energy": True, "pad": case["pad"], "window": None, "use_power": False, "use_log": False}
+    key = ("si", case["bank"], S, case["style"], case["pad"])
+    if key not in _enum_cache:
+        _enum_cache.clear()
+        _enum_cache[key] = _build_two(spec)
+    stream, fresh = _enum_cache[key]
+    require(stream.frame_shift == S, "frame shift {} != {}", stream.frame_shift, S)
+    require(not stream.started and not fresh.started, "computer left started by a previous utterance")
+    x = np.cos(0.9 * np.arange(N)) + 0.37 * (np.arange(N) % 3) - 0.2
+    full = call("compute_full", fresh.compute_full, x)
+    base = _lens_from_mask(N, case["mask"])
+    variants = [base] + [base[:i] + [0] + base[i:] for i in range(len(base) + 1)]
+    for lens in variants:
+        outs = _run_chunked(stream, x, lens)
+        _compare(spec, "f64", outs, full, "SI %s N=%d S=%d %s chunks=%s" % (case["bank"], N, S, case["style"], lens))
+    return {"nontrivial": len(base) >= 2 and full.shape[0] >= 1, "labels": ["style=" + case["style"], "bank=" + case["bank"]]}
+
+
 # ---------------------------------------------------------------- generators
 
 
@@ -293,4 +337,7 @@ def clauses(tier):
         Clause("all_compositions", check_enum,
                "every composition of N into chunk lengths (and each with one empty chunk at every position) for small L, S, N; non-trivial = >= 2 chunks and >= 1 frame",
                None, enumerate=_enum_cases, enum_name="all_compositions_small"),
+        Clause("all_compositions_si", check_enum_si,
+               "short-integration computers (Gabor and gammatone bank, shifts 1-3, both styles): every composition of N <= 10 (quick: 6) with an empty chunk at every position; computers reused across cases",
+               None, enumerate=_enum_si_cases, enum_name="all_compositions_si_small"),
     ]
